@@ -2,7 +2,6 @@
 # and its entry here is ignored.
 PENDING = 'check not built yet in this round (planned: DESIGN.md section 4)'
 REASONS = {
- 'C15': PENDING, 'C17': PENDING, 'C18': PENDING,
  'C03': 'The output is produced by recursive negaScout over the game tree with TT, exceptions, std::vector<MoveInfo> and threads; no bounded symbolic execution of it is within reach of CBMC, and the encodable guards decide only a sliver of the stated property.',
  'C04': 'Soundness of a mate score is a statement about the whole search tree (pruning, hash re-use at other plies); only the score encoding is encodable and that is claimed under C08/C13, not as C04.',
  'C05': 'Session behaviour = iostream parsing + std::string/vector tokenising + three cooperating threads; cannot be lowered for CBMC.',
